@@ -7,6 +7,13 @@ let rec add n m =
   | O -> m
   | S p -> S (add p m)
 
+(** val mul : nat -> nat -> nat **)
+
+let rec mul n m =
+  match n with
+  | O -> O
+  | S p -> add m (mul p m)
+
 (** val sub : nat -> nat -> nat **)
 
 let rec sub n m =
